@@ -8,7 +8,10 @@
    that have no rectangles ([squarable]).  [compatible sqrt_o R Fx mods]: the cells (refinable R,
    fixed Fx) are proper rectangles pairwise without common area, Fx are the rectangles of the
    fixed modules, refinable regions are not marked fixed, names are distinct, every module
-   without rectangles has a centre and a positive area.  [shape sqrt_o m] = the module's
+   without rectangles has a centre and a positive area, each module's own rectangles are proper
+   and pairwise without common area.  [ceps] is the rounding allowance of the repaired code
+   (fixes/C03-ratio-rounding.diff): a ratio in (1, 1+ceps] is recorded as 1; under the hypotheses
+   every exact ratio is at most 1, so the allowance never changes a value (any ceps).  [shape sqrt_o m] = the module's
    rectangles, or the square of its area around its centre.  [covered c rs] = sum of the
    overlap areas of cell c with the rectangles rs (by C18_ov_common_region each term is the
    area of the common region; for pairwise disjoint rs it is the area of c inside the shape). *)
@@ -32,36 +35,35 @@ Print Assumptions C03_covered_le_area.
 
 (* the whole cell list: the fixed modules' rectangles first (module order, marked fixed, map
    {m: 1}), then the refinable regions in order with the map computed by alloc_of, depth 0 *)
-Theorem C03_ia_cells : forall sqrt_o feps aeps inc0 R Fx mods,
+Theorem C03_ia_cells : forall sqrt_o feps ceps aeps inc0 R Fx mods,
   compatible sqrt_o R Fx mods -> 0 < feps -> feps < 1 ->
-  initial_allocation sqrt_o feps aeps inc0 R Fx mods =
+  initial_allocation sqrt_o feps ceps aeps inc0 R Fx mods =
   match mk_allocation aeps (init_cells R Fx) with
   | None => Reject RCells
   | Some _ => finalize aeps
       (flat_map (fun m => map (fun r => mkCell (set_fixed r) [(mname m, 1)] 0%nat) (mrects m))
                 (filter mfixed (map (squared sqrt_o) mods)) ++
-       map (fun r => mkCell r (alloc_of inc0 (map (squared sqrt_o) mods) r) 0%nat) R)
+       map (fun r => mkCell r (alloc_of ceps inc0 (map (squared sqrt_o) mods) r) 0%nat) R)
   end.
 Proof. exact ia_cells. Qed.
 Print Assumptions C03_ia_cells.
 
 (* each refinable cell and module: the recorded ratio is exactly the covered fraction, in [0,1] *)
-Theorem C03_ia_ratio : forall sqrt_o feps aeps inc0 R Fx mods out,
+Theorem C03_ia_ratio : forall sqrt_o feps ceps aeps inc0 R Fx mods out,
   compatible sqrt_o R Fx mods -> 0 < feps -> feps < 1 ->
-  initial_allocation sqrt_o feps aeps inc0 R Fx mods = Accept out ->
+  initial_allocation sqrt_o feps ceps aeps inc0 R Fx mods = Accept out ->
   forall c, In c R -> exists cell, In cell out /\ crect cell = c /\ cdepth cell = 0%nat /\
     forall m, In m mods ->
       ratio (mname m) cell = covered c (shape sqrt_o m) / area c /\
-      0 <= ratio (mname m) cell /\
-      (pairwise_no_ov (mrects m) -> Forall wf (mrects m) -> ratio (mname m) cell <= 1).
+      0 <= ratio (mname m) cell /\ ratio (mname m) cell <= 1.
 Proof. exact ia_ratio. Qed.
 Print Assumptions C03_ia_ratio.
 
 (* every fixed module owns exactly its own cells: each of its rectangles is a cell marked fixed
    whose map is {m: 1}, and any cell in which m has a positive ratio is one of these *)
-Theorem C03_ia_fixed_owns : forall sqrt_o feps aeps inc0 R Fx mods out,
+Theorem C03_ia_fixed_owns : forall sqrt_o feps ceps aeps inc0 R Fx mods out,
   compatible sqrt_o R Fx mods -> 0 < feps -> feps < 1 ->
-  initial_allocation sqrt_o feps aeps inc0 R Fx mods = Accept out ->
+  initial_allocation sqrt_o feps ceps aeps inc0 R Fx mods = Accept out ->
   forall m, In m mods -> mfixed m = true ->
     (forall r, In r (mrects m) -> In (mkCell (set_fixed r) [(mname m, 1)] 0%nat) out) /\
     (forall cell, In cell out -> 0 < ratio (mname m) cell ->
@@ -70,9 +72,9 @@ Proof. exact ia_fixed_owns. Qed.
 Print Assumptions C03_ia_fixed_owns.
 
 (* without zero entries a module is listed in a refinable cell iff it covers part of it *)
-Theorem C03_ia_listed_iff : forall sqrt_o feps aeps R Fx mods out,
+Theorem C03_ia_listed_iff : forall sqrt_o feps ceps aeps R Fx mods out,
   compatible sqrt_o R Fx mods -> 0 < feps -> feps < 1 ->
-  initial_allocation sqrt_o feps aeps false R Fx mods = Accept out ->
+  initial_allocation sqrt_o feps ceps aeps false R Fx mods = Accept out ->
   forall c, In c R -> exists cell, In cell out /\ crect cell = c /\
     forall m, In m mods ->
       ((exists q, lookup (mname m) (calloc cell) = Some q) <-> 0 < covered c (shape sqrt_o m)).
@@ -81,9 +83,9 @@ Print Assumptions C03_ia_listed_iff.
 
 (* allocated area = area of the shape on the cells open to the module: the refinable cells for a
    soft or hard module; for a fixed module its own rectangles, which is also its area on all cells *)
-Theorem C03_ia_area : forall sqrt_o feps aeps inc0 R Fx mods out,
+Theorem C03_ia_area : forall sqrt_o feps ceps aeps inc0 R Fx mods out,
   compatible sqrt_o R Fx mods -> 0 < feps -> feps < 1 ->
-  initial_allocation sqrt_o feps aeps inc0 R Fx mods = Accept out ->
+  initial_allocation sqrt_o feps ceps aeps inc0 R Fx mods = Accept out ->
   forall m, In m mods ->
     (mfixed m = false ->
        area_of (mname m) out =
@@ -98,17 +100,16 @@ Print Assumptions C03_ia_area.
 (* the construction is accepted: no assertion of _detect_fixed_rectangles or of the Allocation
    constructor can fail, and no module has total area 0 (with zero entries: provided every
    movable module touches some refinable cell) *)
-Theorem C03_ia_ok : forall sqrt_o feps aeps inc0 R Fx mods,
+Theorem C03_ia_ok : forall sqrt_o feps ceps aeps inc0 R Fx mods,
   compatible sqrt_o R Fx mods ->
   (R ++ Fx <> [] /\
    Forall (fun r => 0 <= xmin r /\ 0 <= ymin r) (R ++ Fx) /\
-   Forall (fun m => valid_identifier (mname m) = true) mods /\
-   Forall (fun m => pairwise_no_ov (mrects m) /\ Forall wf (mrects m)) mods) ->
+   Forall (fun m => valid_identifier (mname m) = true) mods) ->
   0 < feps -> feps < 1 -> 0 <= aeps ->
   (inc0 = true -> forall m, In m mods -> mfixed m = false ->
      exists c, In c R /\ 0 < covered c (shape sqrt_o m)) ->
-  exists out, initial_allocation sqrt_o feps aeps inc0 R Fx mods = Accept out.
-Proof. exact (fun s f a i R Fx mods H1 H2 H3 H4 H5 H6 => ex_intro _ _ (ia_ok s f a i R Fx mods H1 H2 H3 H4 H5 H6)). Qed.
+  exists out, initial_allocation sqrt_o feps ceps aeps inc0 R Fx mods = Accept out.
+Proof. exact (fun s f c a i R Fx mods H1 H2 H3 H4 H5 H6 => ex_intro _ _ (ia_ok s f c a i R Fx mods H1 H2 H3 H4 H5 H6)). Qed.
 Print Assumptions C03_ia_ok.
 
 (* the hypotheses are satisfiable: a soft module sticking out of the die, lying partly on a
